@@ -30,22 +30,6 @@ Proof.
     rewrite Ropp_0. apply exp_0.
 Qed.
 
-(* for every fwhm but 1 the effective sigma is fwhm2sigma(fwhm) and the kernel has the requested width ... *)
-Lemma eff_sigma_half_max f : f <> 0 -> f <> 1 -> gauss (eff_sigmaR f) (f / 2) = / 2.
-Proof.
-  intros H0 H1. unfold eff_sigmaR. destruct (Req_EM_T f 1) as [E|_]; [contradiction|].
-  apply (half_max f H0).
-Qed.
-
-(* ... but for fwhm = 1.0 exactly it is 1: the value at distance 1/2 is exp(-1/8), not 1/2 *)
-Lemma eff_sigma_one_not_half_max : gauss (eff_sigmaR 1) (1 / 2) <> / 2.
-Proof.
-  unfold eff_sigmaR. destruct (Req_EM_T 1 1) as [_|N]; [|contradiction N; reflexivity].
-  unfold gauss. intros C.
-  assert (E2 : / 2 = exp (- ln 2)) by (rewrite exp_Ropp, exp_ln by lra; reflexivity).
-  rewrite E2 in C. apply exp_inv in C. pose proof ln_lt_2. lra.
-Qed.
-
 Lemma pos_recipr_pos x : 0 < x -> pos_recipr x = / x.
 Proof. intros H. unfold pos_recipr. destruct (Rlt_dec 0 x) as [_|N]; [field; lra|contradiction]. Qed.
 
@@ -53,34 +37,31 @@ Section Root.
   Variable D : nat.
   Variable root : R -> R.                  (* np.power(., 1./D) *)
   Hypothesis root_spec : forall r, 0 < r -> 0 < root r /\ (root r) ^ D = r.
+  Hypothesis root_pow : forall x, 0 < x -> root (x ^ D) = x.
 
-  (* as written, the round trip multiplies by wedge^(-2D) *)
   Lemma resel_roundtrip wedge r :
-    0 < wedge -> 0 < r -> fwhm2resel D wedge (resel2fwhm root wedge r) = r / (wedge ^ D * wedge ^ D).
+    0 < wedge -> 0 < r -> fwhm2resel D wedge (resel2fwhm root wedge r) = r.
   Proof.
     intros Hw Hr. destruct (root_spec r Hr) as [Rp Re]. pose proof w4_pos as W.
     unfold fwhm2resel, resel2fwhm. rewrite (pos_recipr_pos (root r) Rp).
-    replace (sqrt (4 * ln 2) * wedge * / root r / sqrt (4 * ln 2) * wedge)
-      with (wedge * wedge * / root r) by (field; split; lra).
-    rewrite !Rpow_mult_distr. rewrite pow_inv. rewrite Re.
-    assert (P : 0 < wedge ^ D) by (apply pow_lt; exact Hw).
-    rewrite pos_recipr_pos.
-    - field. split; lra.
-    - apply Rmult_lt_0_compat; [apply Rmult_lt_0_compat; exact P|apply Rinv_0_lt_compat; exact Hr].
+    replace (sqrt (4 * ln 2) * wedge * / root r / (sqrt (4 * ln 2) * wedge))
+      with (/ root r) by (field; repeat split; lra).
+    rewrite pow_inv. rewrite Re. rewrite pos_recipr_pos by (apply Rinv_0_lt_compat; exact Hr).
+    field. lra.
   Qed.
 
-  Lemma resel_roundtrip_unit r : 0 < r -> fwhm2resel D 1 (resel2fwhm root 1 r) = r.
+  Lemma fwhm_roundtrip wedge f :
+    0 < wedge -> 0 < f -> resel2fwhm root wedge (fwhm2resel D wedge f) = f.
   Proof.
-    intros Hr. rewrite resel_roundtrip by lra. rewrite pow1. field.
+    intros Hw Hf. pose proof w4_pos as W.
+    unfold fwhm2resel, resel2fwhm.
+    set (x := f / (sqrt (4 * ln 2) * wedge)).
+    assert (Hx : 0 < x).
+    { unfold x. apply Rdiv_lt_0_compat; [exact Hf|apply Rmult_lt_0_compat; assumption]. }
+    assert (Hp : 0 < x ^ D) by (apply pow_lt; exact Hx).
+    rewrite (pos_recipr_pos _ Hp). rewrite <- pow_inv.
+    rewrite root_pow by (apply Rinv_0_lt_compat; exact Hx).
+    rewrite pos_recipr_pos by (apply Rinv_0_lt_compat; exact Hx).
+    rewrite Rinv_inv. unfold x. field. split; lra.
   Qed.
 End Root.
-
-(* witness: D = 1 is enough to see it (root = identity), wedge = 2, r = 1 *)
-Lemma resel_roundtrip_witness :
-  fwhm2resel 1 2 (resel2fwhm (fun r => r) 2 1) = / 4.
-Proof.
-  assert (RS : forall r : R, 0 < r -> 0 < (fun r => r) r /\ ((fun r => r) r) ^ 1 = r).
-  { intros r Hr. split; [exact Hr|simpl; ring]. }
-  rewrite (resel_roundtrip 1 (fun r => r) RS) by lra.
-  simpl. field.
-Qed.
